@@ -29,7 +29,7 @@ def main():
         fixed.append({"status": "fixed", "property": e["property"], "rule": e["rule"], "commit": h,
                       "what": e["what"], "subject": subj,
                       "line": f"fixed: property={e['property']} {h} {e['what']}"})
-        if "--variants" in sys.argv:
+        if "--variants" in sys.argv and not e.get("no_variant"):
             d = os.path.join(HERE, "variants", e["property"])
             os.makedirs(d, exist_ok=True)
             diff = git("diff", h, h + "~1", "--", "src")
